@@ -449,7 +449,7 @@ func (ev *dtEval) enumerate(pkg *types.Package, f func(env *dtEnv) bool) {
 			}
 		}
 		if len(dom) == 0 {
-			dom = []int64{0, 1, 2, 3}
+			dom = []int64{-1, 0, 1, 2, 3}
 		}
 		domains[i] = dom
 	}
